@@ -120,6 +120,7 @@ func rewriteImports(dir string) (rewritten, warnings []string, err error) {
 		}
 		nGo := rewriteGoStmts(f)
 		nCh := insertChanPoints(f)
+		chanOps += nCh
 		if nGo+nCh > 0 {
 			changed = true
 			// the printer places comments by position; around rewritten statements that
@@ -166,6 +167,10 @@ func rewriteImports(dir string) (rewritten, warnings []string, err error) {
 	sort.Strings(rewritten)
 	return
 }
+
+// chanOps counts the channel operations found in the library (0: the detection of
+// tasks blocked outside the model stays off in the workers).
+var chanOps int
 
 // goRewritten lists the files whose go statements were turned into simulated tasks.
 var goRewritten []string
